@@ -21,6 +21,8 @@ use crate::marker::StaticOrDynamic;
 use crate::router::Route;
 use linked_hash_set::LinkedHashSet;
 use serde::{Deserialize, Serialize};
+#[cfg(kani)]
+pub use log_override::LogOverride as VerifLogOverride;
 pub use status_code_update::StatusCodeUpdate;
 use std::collections::HashMap;
 use std::fmt::Debug;
